@@ -65,5 +65,11 @@ def circumcenter2 (a b c : Nat → α) : Nat → α :=
   cross (perpOn2 (cross a b) m1) (perpOn2 (cross b c) m2)
 
 
+/-- entry (i, j) of the matrix `outer(ac, bd) − cr·outer(ad, bc)` of `Conic.from_crossratio` (`adjugate([1, x, y])[:, 0] = x × y`;
+    the conic matrix is this plus its transpose) -/
+def crM (cr : α) (a b c d : Nat → α) (i j : Nat) : α :=
+  cross a c i * cross b d j - cr * (cross a d i * cross b c j)
+
+
 end
 end Geo
